@@ -103,6 +103,8 @@ fn run(args: &[String]) {
     util::install_panic_hook();
     obs::trlog::install();
     ctx.open_progress();
+    let limit = std::env::var("RVMON_CASE_LIMIT_SECS").ok().and_then(|v| v.parse::<f64>().ok()).unwrap_or(0.0);
+    util::watchdog::start(limit, ctx.out.clone());
     let known = match util::guarded(|| prop::dispatch(&mut ctx)) {
         util::Caught::Ok(k) => k,
         util::Caught::LibPanic(loc, msg) | util::Caught::HarnessPanic(loc, msg) => {
